@@ -319,3 +319,88 @@ func WithUnrelated(p *prog.Program) *prog.Program {
 	q.Pkgs = append(q.Pkgs, Unrelated())
 	return q
 }
+
+// TestVariants is a module in which the drivers hold several type-checked instances of one import
+// path at once (a, a [a.test], b [a.test]): package a has an internal test file and an external
+// test package that imports b, which imports a. Every @implements annotation in it is correct and
+// mentions a named type of package a in a method signature, so the expected diagnostic set is empty
+// in every cell; a process-wide cache keyed by import path would mix objects of different instances.
+func TestVariants() *prog.Program {
+	return &prog.Program{Pkgs: []prog.Pkg{
+		{Path: "ex.com/m/a", Files: []prog.File{
+			{Name: "a.go", Src: `package a
+
+type N struct{ V int }
+
+type Iface interface {
+	Get() N
+	Put(n *N) error
+	Name() string
+}
+
+// Own implements Iface in the declaring package.
+// @implements Iface
+type Own struct{}
+
+func (Own) Get() N         { return N{} }
+func (Own) Put(n *N) error { return nil }
+func (Own) Name() string   { return "" }
+`},
+			{Name: "a_test.go", Src: `package a
+
+// tImpl lives in an internal test file.
+// @implements Iface
+type tImpl struct{}
+
+func (tImpl) Get() N         { return N{} }
+func (tImpl) Put(n *N) error { return nil }
+func (tImpl) Name() string   { return "" }
+`},
+			{Name: "a_ext_test.go", Src: `package a_test
+
+import (
+	"ex.com/m/a"
+	"ex.com/m/b"
+)
+
+var _ = b.New
+
+// eImpl lives in the external test package.
+// @implements a.Iface
+type eImpl struct{}
+
+func (eImpl) Get() a.N         { return a.N{} }
+func (eImpl) Put(n *a.N) error { return nil }
+func (eImpl) Name() string     { return "" }
+`},
+		}},
+		{Path: "ex.com/m/b", Files: []prog.File{
+			{Name: "b.go", Src: `package b
+
+import "ex.com/m/a"
+
+// BImpl implements a.Iface.
+// @implements a.Iface
+type BImpl struct{}
+
+func (BImpl) Get() a.N         { return a.N{} }
+func (BImpl) Put(n *a.N) error { return nil }
+func (BImpl) Name() string     { return "" }
+
+func New() a.Iface { return BImpl{} }
+`},
+			{Name: "b_test.go", Src: `package b
+
+import "ex.com/m/a"
+
+// bt lives in b's internal test file.
+// @implements a.Iface
+type bt struct{}
+
+func (bt) Get() a.N         { return a.N{} }
+func (bt) Put(n *a.N) error { return nil }
+func (bt) Name() string     { return "" }
+`},
+		}},
+	}}
+}
